@@ -64,7 +64,12 @@ where
 
         let processed_message = match group.process_message(&self.provider, protocol_message) {
             Ok(processed_message) => processed_message,
-            Err(ProcessMessageError::ValidationError(ValidationError::WrongEpoch)) => {
+            // Only a commit can compete for an epoch (MIP-03). A stale proposal or application
+            // message must not be compared against the applied commit: it is older than that
+            // commit by construction and would always win the comparison and force a rollback.
+            Err(ProcessMessageError::ValidationError(ValidationError::WrongEpoch))
+                if content_type == ContentType::Commit =>
+            {
                 return Err(Error::ProcessMessageWrongEpoch(msg_epoch));
             }
             Err(ProcessMessageError::ValidationError(ValidationError::CannotDecryptOwnMessage)) => {
